@@ -11,8 +11,8 @@
 using namespace sim;
 using namespace mpt;
 
-enum { OP_ID, OP_ARM, OP_REPLY, OP_DEFER, OP_DREPLY, OP_DRELEASE, OP_ADDREF, OP_UNREF, OP_NEWCTX, OP_REQ, OP_DELIVER, OP_SERVE, OP_FLUSH };
-static const char *const OPS[] = {"ID", "ARM", "REPLY", "DEFER", "DEFERRED_REPLY", "RELEASE_HANDLE", "ADDREF_CTX", "UNREF_CTX", "NEW_CTX", "REQUEST", "DELIVER", "SERVE", "FLUSH", 0};
+enum { OP_ID, OP_ARM, OP_REPLY, OP_DEFER, OP_DREPLY, OP_DRELEASE, OP_ADDREF, OP_UNREF, OP_NEWCTX, OP_REQ, OP_DELIVER, OP_SERVE, OP_FLUSH, OP_DREPLY2, OP_SYNC };
+static const char *const OPS[] = {"ID", "ARM", "REPLY", "DEFER", "DEFERRED_REPLY", "RELEASE_HANDLE", "ADDREF_CTX", "UNREF_CTX", "NEW_CTX", "REQUEST", "DELIVER", "SERVE", "FLUSH", "LATE_REPLY", "SYNC", 0};
 enum { FL_NONE, FL_ALLOC, FL_REJECT, FL_SHORT, FL_EAGAIN };
 static const char *const FAULTS[] = {"none", "allocfail", "reject", "short", "eagain", 0};
 
@@ -48,6 +48,8 @@ static int transport_send(void *ptr, const reply_data *rd, const message *msg) {
 	return 0;
 }
 
+static void *CCp;
+
 struct ReplyWorld : World {
 	const char *name() const override { return "reply"; }
 	const char *const *opnames() const override { return OPS; }
@@ -59,7 +61,7 @@ struct ReplyWorld : World {
 		       "\"stub\":[\"transport = send callback accepting or rejecting per plan\",\"allocator (ledger + n-th allocation fails)\",\"per-request bookkeeping (accepted at most once, id, reply mark)\"]}";
 	}
 	void gen(Rng &r, Plan &p, int tier) override {
-		if (r.chance(1, 3)) { gen_stream(r, p, tier); return; }
+		if (r.chance(1, 3)) { if (r.chance(1, 2)) gen_stream(r, p, tier); else gen_conn(r, p, tier); return; }
 		p.set("layer", 0);
 		p.set("ctxlen", r.chance(1, 5) ? r.range(9, 20) : r.range(1, 8));
 		int nops = (int) r.range(1, tier ? 80 : 40);
@@ -111,8 +113,8 @@ struct ReplyWorld : World {
 		if ((q->id != 0) != (ev->reply != 0)) { pend("reply-context", "request with id %llx %s a reply context", (unsigned long long) q->id, ev->reply ? "got" : "did not get"); return 0; }
 		if (!ev->reply) return 0;
 		switch (q->behaviour) {
-		case 1: { Sut s; mpt_context_reply(ev->reply, 0, "%s", "done"); } return 0;
-		case 2: { int r1, r2; { Sut s; r1 = mpt_context_reply(ev->reply, 0, "%s", "first"); r2 = mpt_context_reply(ev->reply, 1, "%s", "second"); }
+		case 1: { Reenter s; mpt_context_reply(ev->reply, 0, "%s", "done"); } return 0;
+		case 2: { int r1, r2; { Reenter s; r1 = mpt_context_reply(ev->reply, 0, "%s", "first"); r2 = mpt_context_reply(ev->reply, 1, "%s", "second"); }
 			if (r1 >= 0 && r2 >= 0) pend("second-reply", "two explicit replies to request %llx were both accepted", (unsigned long long) q->id); return 0; }
 		case 3: return -3;      // handler fails without answering: the default reply carries the error
 		default: return 0;      // handler succeeds without answering: default reply
@@ -225,6 +227,224 @@ struct ReplyWorld : World {
 		if (ledger_live()) fail("leak", "%zu block(s) allocated after the stream input was released: %s", ledger_live(), ledger_describe().c_str());
 	}
 
+	// ---- layer L2: two real connections (stream backend) that both send requests and serve the peer's
+	void gen_conn(Rng &r, Plan &p, int tier) {
+		p.set("layer", 2);
+		p.set("idlen", r.range(1, 4));
+		static const int caps[] = {5, 32, 4096, 4096};
+		p.set("chancap", r.pick(caps));
+		p.set("sync", r.chance(1, 3));
+		int nops = (int) r.range(1, tier ? 90 : 45); bool iof = r.chance(1, 2), af = r.chance(1, 3);
+		for (int i = 0; i < nops; ++i) {
+			Op op; unsigned k = (unsigned) r.below(16);
+			op.kind = k < 4 ? OP_REQ : k < 7 ? OP_DELIVER : k < 11 ? OP_SERVE : k < 13 ? OP_FLUSH : k < 15 ? OP_DREPLY2 : OP_SYNC;
+			// a: random bits, b: side | behaviour << 8 | await << 16, c: size / count
+			op.a = (int64_t) r.next(); op.b = r.below(2) | (r.below(6) << 8) | ((r.chance(1, 6) ? 0 : 1) << 16); op.c = r.chance(1, 3) ? 1 : r.chance(1, 2) ? 1000000 : r.range(1, 40);
+			if (iof && op.kind == OP_FLUSH && r.chance(1, 2)) { op.fault = r.chance(1, 2) ? FL_SHORT : FL_EAGAIN; op.fa = r.range(1, 5); }
+			if (af && (op.kind == OP_SERVE || op.kind == OP_REQ || op.kind == OP_DREPLY2) && r.chance(1, 4)) { op.fault = FL_ALLOC; op.fa = r.range(1, 5); }
+			p.ops.push_back(op);
+		}
+	}
+	struct CReq {
+		uint32_t serial; int behaviour; bool awaited; uint64_t cid = 0; Bytes payload;
+		bool sent = false, push_failed = false, faulted = false;
+		int handled = 0, callbacks = 0, cancelled = 0;
+		bool late_dropped = false;
+		reply_context_detached *late = 0;    // handle of a deferred answer, held by the peer's handler
+	};
+	struct Peer { const char *name; connection *con = 0; stream *srm = 0; int fd = -1, rchan = -1, wchan = -1; std::vector<CReq> sent; };
+	struct ConnCtx { Peer peer[2]; Log *log; Stats *st; unsigned idlen; };
+	static std::string answer_text(const CReq &q) { char b[32]; snprintf(b, sizeof(b), "r%u;", q.serial); return b; }
+	// reply callback registered with mpt_connection_await: arg = side << 16 | (index + 1)
+	static int conn_reply_cb(void *arg, const message *msg) {
+		Harness h;
+		uintptr_t v = (uintptr_t) arg; unsigned side = (unsigned) (v >> 16) & 1; size_t idx = (v & 0xffff) - 1;
+		ConnCtx &C = *(ConnCtx *) CCp;
+		if (idx >= C.peer[side].sent.size()) { pend("wrong-requester", "reply callback with an argument nobody registered (%lx)", (unsigned long) v); return 0; }
+		CReq &q = C.peer[side].sent[idx];
+		if (!msg) { ++q.cancelled; C.log->ev("    %s: request r%u cancelled", C.peer[side].name, q.serial); return 0; }
+		message m = *msg; size_t len = mpt_message_length(&m); Bytes body(len); mpt_message_read(&m, len, body.data());
+		C.log->ev("    %s: reply for request r%u (id %llx): %zu bytes [%s]", C.peer[side].name, q.serial, (unsigned long long) q.cid, len, hex(body, 16).c_str());
+		if (++q.callbacks > 1) { pend("second-delivery", "requester %s got %d answers for request r%u", C.peer[side].name, q.callbacks, q.serial); return 0; }
+		if (!q.handled) { pend("wrong-requester", "requester %s got an answer for request r%u which the peer has not seen", C.peer[side].name, q.serial); return 0; }
+		if (q.faulted) return 0;
+		std::string want = answer_text(q);
+		bool text = std::search(body.begin(), body.end(), want.begin(), want.end()) != body.end();
+		// does it carry some other request's answer?
+		for (auto &o : C.peer[side].sent) if (&o != &q) { std::string t = answer_text(o); if (std::search(body.begin(), body.end(), t.begin(), t.end()) != body.end()) { pend("wrong-requester", "answer for request r%u was handed to the callback of r%u", o.serial, q.serial); return 0; } }
+		bool expl = q.behaviour == 1 || q.behaviour == 2 || q.behaviour == 4 || q.behaviour == 5;
+		if (expl && !text && !q.late_dropped) { pend("wrong-answer", "answer to r%u (behaviour %d) lacks the responder's text", q.serial, q.behaviour); return 0; }
+		if (!expl) { Bytes w = {(uint8_t) msgtype::Answer, (uint8_t) (q.behaviour == 3 ? -3 : 0)}; if (body != w) pend("wrong-answer", "default answer to r%u is [%s]", q.serial, hex(body, 12).c_str()); }
+		return 0;
+	}
+	// request handler of the serving side: arg = serving side
+	static int conn_handler(void *arg, event *ev) {
+		Harness h;
+		ConnCtx &C = *(ConnCtx *) CCp; unsigned side = (unsigned) (uintptr_t) arg & 1; Peer &from = C.peer[side ^ 1];
+		if (!ev) return 0;
+		if (!ev->msg) { pend("bad-event", "connection dispatched an event without message"); return 0; }
+		message m = *ev->msg; size_t len = mpt_message_length(&m); Bytes body(len); mpt_message_read(&m, len, body.data());
+		CReq *q = 0; for (auto &r : from.sent) if (r.payload == body) { q = &r; break; }
+		if (!q) { pend("invented", "%s received a request nobody sent (%zu bytes [%s])", C.peer[side].name, len, hex(body, 16).c_str()); return 0; }
+		if (q->handled++) { pend("duplicate-request", "request r%u dispatched twice", q->serial); return 0; }
+		C.log->ev("    %s: handle request r%u id=%llx behaviour=%d reply-context=%s", C.peer[side].name, q->serial, (unsigned long long) q->cid, q->behaviour, ev->reply ? "yes" : "no");
+		if (q->cid && !ev->reply && g.fired) { q->faulted = true; C.st->hit("probe:no_context_after_allocfail"); return 0; }   // the context could not be allocated: served without answer
+		if ((q->cid != 0) != (ev->reply != 0)) { pend("reply-context", "request r%u with id %llx %s a reply context", q->serial, (unsigned long long) q->cid, ev->reply ? "got" : "did not get"); return 0; }
+		if (!ev->reply) return 0;
+		std::string t = answer_text(*q);
+		switch (q->behaviour) {
+		case 1: { Reenter s; mpt_context_reply(ev->reply, 0, "%s", t.c_str()); } return 0;
+		case 2: { int r1, r2; { Reenter s; r1 = mpt_context_reply(ev->reply, 0, "%s", t.c_str()); r2 = mpt_context_reply(ev->reply, 1, "%s", "again"); }
+			if (r1 >= 0 && r2 >= 0) pend("second-reply", "two explicit replies to request r%u were both accepted", q->serial); return 0; }
+		case 3: return -3;
+		case 4: case 5: { reply_context_detached *d; { Reenter s; d = ev->reply->defer(); }
+			if (d) { q->late = d; C.st->hit("probe:deferred"); } else { q->behaviour = 0; C.st->hit("probe:defer_refused"); }
+			return 0; }
+		default: return 0;
+		}
+	}
+	void exec_conn(const Plan &p, Log &log, Stats &st) {
+		ConnCtx C; C.log = &log; C.st = &st; CCp = &C;
+		unsigned idlen = C.idlen = (unsigned) std::min<int64_t>(std::max<int64_t>(p.get("idlen", 2), 1), 8);
+		size_t chancap = (size_t) std::min<int64_t>(std::max<int64_t>(p.get("chancap", 4096), 1), 1 << 20);
+		bool use_sync = p.get("sync") != 0;
+		int ab = simio::new_chan(chancap), ba = simio::new_chan(chancap);
+		C.peer[0].name = "A"; C.peer[1].name = "B";
+		for (int i = 0; i < 2; ++i) {
+			Peer &P = C.peer[i];
+			P.rchan = i ? ab : ba; P.wchan = i ? ba : ab;
+			P.fd = simio::new_fd(P.rchan, P.wchan, O_RDWR | O_NONBLOCK);
+			// what mpt_connection_open does once the descriptor is connected
+			void *mem; { Sut s; mem = malloc(sizeof(stream)); } P.srm = new (mem) stream();
+			int rc; { Sut s; socket sk; sk._id = P.fd; rc = mpt_stream_dopen(P.srm, &sk, stream::RdWr | stream::Buffer); sk._id = -1; }
+			if (rc < 0) fail("setup", "mpt_stream_dopen on the simulated descriptor failed");
+			P.srm->_wd._enc = mpt_message_encoder(EncodingCobs); P.srm->_rd._dec = mpt_message_decoder(EncodingCobs);
+			void *cm; { Sut s; cm = calloc(1, sizeof(connection)); } P.con = (connection *) cm;
+			P.con->out.sock._id = -1; *reinterpret_cast<void **>(&P.con->out.buf) = P.srm; P.con->out._idlen = (uint8_t) idlen;
+		}
+		log.ev("reply L2 idlen=%u chancap=%zu reply intake=%s", idlen, chancap, use_sync ? "sync+dispatch" : "dispatch");
+		st.hit("layer:L2");
+		uint32_t serial = 1;
+		auto mark_faulted = [&](const std::vector<int> &b0, const std::vector<int> &b1) {
+			for (int s = 0; s < 2; ++s) { const std::vector<int> &b = s ? b1 : b0; for (size_t k = 0; k < C.peer[s].sent.size(); ++k) if (C.peer[s].sent[k].handled && (k >= b.size() || !b[k])) C.peer[s].sent[k].faulted = true; }
+		};
+		auto snapshot = [&](int s) { std::vector<int> v; for (auto &r : C.peer[s].sent) v.push_back(r.handled); return v; };
+		auto serve = [&](int side, int64_t failn) -> int {
+			Peer &P = C.peer[side];
+			int n; { Sut s; n = mpt_stream_poll(P.srm, POLLIN, 0); }
+			int d, guard = 0;
+			do {
+				std::vector<int> b0 = snapshot(0), b1 = snapshot(1);
+				bool fired; { Sut s(failn); SUT_GUARD_ABORT(d = mpt_connection_dispatch(P.con, conn_handler, (void *) (uintptr_t) side)); fired = g.fired; }
+				check_pending();
+				if (fired) { st.hit("fault:allocfail_in_dispatch"); failn = 0; mark_faulted(b0, b1); }
+			} while (d >= 0 && (d & 0x10000) && ++guard < 64);
+			log.ev("SERVE %s poll=%d dispatch=%d", P.name, n, d);
+			return d;
+		};
+		auto flush = [&](int side, int fault, int64_t fa) -> int {
+			Peer &P = C.peer[side]; simio::Fd *f = simio::get(P.fd);
+			f->wfault = fault == FL_SHORT ? simio::F_SHORT : fault == FL_EAGAIN ? simio::F_EAGAIN : 0; f->wfa = fa;
+			int n; { Sut s; n = mpt_stream_poll(P.srm, POLLOUT, 0); }
+			f->wfault = 0;
+			log.ev("FLUSH %s%s%s -> %d", P.name, fault ? " " : "", fault ? FAULTS[fault] : "", n);
+			return n;
+		};
+		auto late_reply = [&](int side, CReq &q, int64_t failn, bool drop) {
+			// the serving side answers a deferred request now
+			std::string t = answer_text(q); Bytes b = {(uint8_t) msgtype::Answer, 0}; b.insert(b.end(), t.begin(), t.end());
+			message m; m.base = b.data(); m.used = b.size(); m.cont = 0; m.clen = 0;
+			int r; bool fired; { Sut s(failn); SUT_GUARD_ABORT(r = q.late->reply(drop ? 0 : &m)); fired = g.fired; }
+			check_pending();
+			log.ev("LATE_REPLY %s r%u%s -> %d%s", C.peer[side].name, q.serial, drop ? " (released unanswered)" : "", r, fired ? " (allocation failed)" : "");
+			if (fired) { st.hit("fault:allocfail_in_late_reply"); q.faulted = true; }
+			if (drop) q.late_dropped = true;
+			if (r >= 0 || drop) q.late = 0;
+			return r;
+		};
+		for (const Op &op : p.ops) {
+			st.hit(std::string("op:") + OPS[op.kind]);
+			int side = (int) (op.b & 1), outcome = 0; Peer &P = C.peer[side];
+			int64_t failn = op.fault == FL_ALLOC ? std::max<int64_t>(op.fa, 1) : 0;
+			switch (op.kind) {
+			case OP_REQ: {
+				if (P.sent.size() >= 10) break;
+				CReq q; q.serial = serial++; q.behaviour = (int) ((op.b >> 8) & 0xff) % 6; q.awaited = (op.b >> 16) & 1;
+				q.payload = {0x08, 0x00}; for (int k = 0; k < 4; ++k) q.payload.push_back((uint8_t) (q.serial >> (8 * k)));
+				size_t extra = (size_t) op.c % 40; for (size_t k = 0; k < extra; ++k) q.payload.push_back((uint8_t) (op.a >> (k % 8)));
+				P.sent.push_back(q); CReq &Q = P.sent.back(); size_t idx = P.sent.size() - 1;
+				bool fired = false; int ar = 0;
+				{ Sut s(failn);
+				  if (Q.awaited) { SUT_GUARD_ABORT(ar = mpt_connection_await(P.con, conn_reply_cb, (void *) (uintptr_t) ((side << 16) | (idx + 1)))); }
+				  if (ar >= 0) {
+					Q.cid = P.con->cid;
+					size_t off = 0, cut = (op.a & 1) ? Q.payload.size() / 2 : Q.payload.size(); ssize_t r = 0; int guard = 0;
+					while (off < Q.payload.size() && ++guard < 64) {
+						size_t n = (off < cut ? cut : Q.payload.size()) - off;
+						SUT_GUARD_ABORT(r = mpt_connection_push(P.con, n, Q.payload.data() + off));
+						if (r < 0) break;
+						off += (size_t) r;
+					}
+					if (r >= 0 && off == Q.payload.size()) { SUT_GUARD_ABORT(r = mpt_connection_push(P.con, 0, 0)); }
+					if (r < 0 || off < Q.payload.size()) Q.push_failed = true; else Q.sent = true;
+				  } else Q.push_failed = true;
+				  fired = g.fired; }
+				check_pending();
+				if (fired) { st.hit("fault:allocfail_in_request"); Q.faulted = true; }
+				if (Q.push_failed && !fired) fail("push-refused", "%s could not send request r%u without any fault (await %d)", P.name, Q.serial, ar);
+				log.ev("REQUEST %s r%u id=%llx behaviour=%d %s payload=%zu -> %s", P.name, Q.serial, (unsigned long long) Q.cid, Q.behaviour, Q.awaited ? "awaited" : "one-way", Q.payload.size(), Q.sent ? "sent" : "failed");
+				if (getenv("VERIF_TRACE_Q")) log.ev("    write queue of %s: off=%zu len=%zu max=%zu done=%zu scratch=%zu ctx=%zu", P.name, P.srm->_wd.off, P.srm->_wd.len, P.srm->_wd.max, P.srm->_wd._state.done, P.srm->_wd._state.scratch, (size_t) P.srm->_wd._state._ctx);
+				if (Q.awaited && Q.sent && !Q.cid) fail("no-id", "awaited request r%u was sent without an id", Q.serial);
+				outcome = Q.sent;
+				break;
+			}
+			case OP_DELIVER: { size_t n = simio::deliver(P.wchan, (size_t) std::max<int64_t>(op.c, 1)); log.ev("DELIVER from %s: %zu", P.name, n); if (n == 1) st.hit("fault:single_byte_delivery"); else if (n) st.hit("fault:segment_cut"); outcome = n > 0; break; }
+			case OP_SERVE: outcome = serve(side, failn) >= 0; break;
+			case OP_FLUSH: if (op.fault) st.hit(std::string("fault:writev_") + FAULTS[op.fault]); flush(side, op.fault, op.fa); outcome = 1; break;
+			case OP_DREPLY2: {
+				// side answers one of the requests it deferred (sent by the other side)
+				std::vector<CReq *> pendg; for (auto &r : C.peer[side ^ 1].sent) if (r.late) pendg.push_back(&r);
+				if (pendg.empty()) break;
+				CReq &q = *pendg[(size_t) ((uint64_t) op.a >> 8) % pendg.size()];
+				outcome = late_reply(side, q, failn, q.behaviour == 5 && (op.a & 2)) >= 0;
+				break;
+			}
+			case OP_SYNC: {
+				if (!use_sync) break;
+				int r; { Sut s; SUT_GUARD_ABORT(r = mpt_stream_sync(P.srm, idlen, &P.con->_wait, 0)); }
+				check_pending();
+				log.ev("SYNC %s -> %d", P.name, r); outcome = r >= 0; st.hit("probe:sync");
+				break;
+			}
+			}
+			st.state(780 + op.kind, (int) std::min<size_t>(C.peer[0].sent.size() + C.peer[1].sent.size(), 3) * 4 + (op.fault ? 2 : 0) + side, outcome);
+		}
+		// drain without faults: deliver, serve, answer what was deferred, flush — until nothing moves
+		for (int round = 0; round < 400; ++round) {
+			uint64_t before = simio::S.readv_calls * 0 + simio::chan(ab)->read + simio::chan(ba)->read + simio::chan(ab)->written + simio::chan(ba)->written;
+			for (int s = 0; s < 2; ++s) {
+				simio::deliver(C.peer[s].wchan, 1 << 20);
+				serve(s, 0);
+				for (auto &r : C.peer[s ^ 1].sent) if (r.late) late_reply(s, r, 0, false);
+				for (int k = 0; k < 4096 && flush(s, 0, 0) > 0; ++k) simio::deliver(C.peer[s].wchan, 1 << 20);
+			}
+			uint64_t after = simio::chan(ab)->read + simio::chan(ba)->read + simio::chan(ab)->written + simio::chan(ba)->written;
+			bool left = !simio::chan(ab)->wire.empty() || !simio::chan(ba)->wire.empty() || !simio::chan(ab)->avail.empty() || !simio::chan(ba)->avail.empty();
+			if (after == before && !left && round > 1) break;
+		}
+		for (int s = 0; s < 2; ++s) for (auto &q : C.peer[s].sent) {
+			if (!q.sent) continue;
+			if (!q.handled && !q.faulted) fail("request-lost", "request r%u of %s was sent completely but never dispatched at the peer", q.serial, C.peer[s].name);
+			if (q.awaited && q.handled && !q.faulted && q.callbacks != 1 && !(q.late_dropped && q.callbacks == 0 && false))
+				fail("no-reply", "awaited request r%u of %s (behaviour %d) was dispatched but its callback ran %d times", q.serial, C.peer[s].name, q.behaviour, q.callbacks);
+			if (!q.awaited && q.callbacks) fail("wrong-requester", "one-way request r%u got an answer", q.serial);
+		}
+		for (int s = 0; s < 2; ++s) { Sut su; mpt_connection_fini(C.peer[s].con); free(C.peer[s].con); }
+		check_pending();
+		CCp = 0;
+		if (ledger_live()) fail("leak", "%zu block(s) allocated after both connections were finished: %s", ledger_live(), ledger_describe().c_str());
+	}
+
 	static uint64_t pick_id(int64_t bits, unsigned w, unsigned sel) {
 		uint64_t lim = w == 0 ? 0 : (w >= 8 ? 0x7fffffffffffffffull : ((1ull << (8 * w - 1)) - 1)); // largest id that fits w bytes with the mark bit clear
 		switch (sel) {
@@ -236,6 +456,7 @@ struct ReplyWorld : World {
 		}
 	}
 	void exec(const Plan &p, Log &log, Stats &st) override {
+		if (p.get("layer") == 2) { exec_conn(p, log, st); return; }
 		if (p.get("layer")) { exec_stream(p, log, st); return; }
 		Transport T; T.log = &log; T.st = &st; TR = &T;
 		size_t ctxlen = (size_t) std::min<int64_t>(std::max<int64_t>(p.get("ctxlen", 4), 1), 64);
